@@ -220,7 +220,21 @@ func Slice(lc LoadConfig, roots []string, rewrite map[string]string, pkgName str
 	for _, di := range list {
 		switch nd := di.node.(type) {
 		case *ast.FuncDecl:
-			out.WriteString(text(di.start, di.end))
+			t := text(di.start, di.end)
+			if nd.Body != nil && nd.Doc != nil {
+				// a function with a body that is *pushed* to another package's
+				// symbol (//go:linkname local pkg.name) would clash with the host
+				// Go runtime when linked natively: drop the directive only
+				var keep []string
+				for _, ln := range strings.Split(t, "\n") {
+					if strings.HasPrefix(strings.TrimSpace(ln), "//go:linkname ") {
+						continue
+					}
+					keep = append(keep, ln)
+				}
+				t = strings.Join(keep, "\n")
+			}
+			out.WriteString(t)
 		case *ast.GenDecl:
 			out.WriteString(text(di.start, di.end))
 		case *ast.TypeSpec:
